@@ -457,6 +457,14 @@ func cnameFlagMonotone(fn *ssa.Function) (bool, string) {
 				return true, ""
 			}
 			seen[v] = true
+			if ex, isEx := v.(*ssa.Extract); isEx {
+				// the flag is the boolean result of a package-local scan helper: first-match form
+				if call, isCall := ex.Tuple.(*ssa.Call); isCall {
+					if g := call.Common().StaticCallee(); g != nil && g.Pkg == fn.Pkg {
+						return firstMatchHelper(g, ex.Index)
+					}
+				}
+			}
 			phi, ok := v.(*ssa.Phi)
 			if !ok {
 				return false, fmt.Sprintf("the success flag is assigned a computed value (%s): a later item or chunk can reset it", v)
@@ -635,5 +643,130 @@ func cnameFirstMatch(fn *ssa.Function) (bool, string) {
 		}
 		return true, ""
 	}
+	// helper form: `if text, found := helper(chunks); found { return text, err }` with the helper
+	// returning (item.Text, true) directly under the test of the same item inside its scan loops
+	for _, b := range fn.Blocks {
+		ret, ok := b.Instrs[len(b.Instrs)-1].(*ssa.Return)
+		if !ok || len(ret.Results) != 2 {
+			continue
+		}
+		ex, ok := ret.Results[0].(*ssa.Extract)
+		if !ok {
+			continue
+		}
+		call, ok := ex.Tuple.(*ssa.Call)
+		if !ok {
+			continue
+		}
+		g := call.Common().StaticCallee()
+		if g == nil || g.Pkg != fn.Pkg || g.Signature.Results().Len() != 2 {
+			continue
+		}
+		// guarded by the helper's boolean result
+		guarded := false
+		for _, cd := range dominatingConds(b) {
+			if e2, ok := cd.v.(*ssa.Extract); ok && e2.Tuple == ex.Tuple && e2.Index == 1-ex.Index && cd.outcome {
+				guarded = true
+			}
+		}
+		if !guarded {
+			continue
+		}
+		if ok, _ := firstMatchHelper(g, 1-ex.Index); !ok {
+			continue
+		}
+		// the helper's true-returns return the tested item's Text
+		okText := true
+		for _, gb := range g.Blocks {
+			gr, ok := gb.Instrs[len(gb.Instrs)-1].(*ssa.Return)
+			if !ok {
+				continue
+			}
+			if k, isC := gr.Results[1-ex.Index].(*ssa.Const); isC && k.Value != nil && k.Value.String() == "true" {
+				ld, ok := gr.Results[ex.Index].(*ssa.UnOp)
+				if !ok {
+					okText = false
+					continue
+				}
+				fa, ok := ld.X.(*ssa.FieldAddr)
+				if !ok || len(gb.Preds) != 1 {
+					okText = false
+					continue
+				}
+				iff, ok := gb.Preds[0].Instrs[len(gb.Preds[0].Instrs)-1].(*ssa.If)
+				if !ok {
+					okText = false
+					continue
+				}
+				cmp, ok := iff.Cond.(*ssa.BinOp)
+				if !ok {
+					okText = false
+					continue
+				}
+				tl, ok := cmp.X.(*ssa.UnOp)
+				if !ok {
+					okText = false
+					continue
+				}
+				tfa, ok := tl.X.(*ssa.FieldAddr)
+				if !ok || tfa.X != fa.X {
+					okText = false
+				}
+			}
+		}
+		if okText {
+			return true, ""
+		}
+	}
 	return false, "no return of `item.Text` directly guarded by `item.Type == SDESCNAME` on the same item inside the scan: CNAME() may not return the first match"
+}
+
+// firstMatchHelper: g's boolean result idx is true only from a return that is the sole continuation of
+// the true edge of `item.Type == SDESCNAME` inside g's scan loops (first match wins), and false only
+// from returns no CNAME-true edge can reach.
+func firstMatchHelper(g *ssa.Function, idx int) (bool, string) {
+	nTrue := 0
+	trueBlocks := map[*ssa.BasicBlock]bool{}
+	for _, b := range g.Blocks {
+		iff, ok := b.Instrs[len(b.Instrs)-1].(*ssa.If)
+		if ok && isTypeEqCNAME(iff.Cond) {
+			trueBlocks[b.Succs[0]] = true
+		}
+	}
+	reach := map[*ssa.BasicBlock]bool{}
+	var stack []*ssa.BasicBlock
+	for b := range trueBlocks {
+		stack = append(stack, b)
+	}
+	for len(stack) > 0 {
+		x := stack[len(stack)-1]
+		stack = stack[:len(stack)-1]
+		if reach[x] {
+			continue
+		}
+		reach[x] = true
+		stack = append(stack, x.Succs...)
+	}
+	for _, b := range g.Blocks {
+		ret, ok := b.Instrs[len(b.Instrs)-1].(*ssa.Return)
+		if !ok || idx >= len(ret.Results) {
+			continue
+		}
+		k, isC := ret.Results[idx].(*ssa.Const)
+		if !isC || k.Value == nil || k.Value.Kind() != constant.Bool {
+			return false, "the scan helper " + g.Name() + " returns a computed flag"
+		}
+		if constant.BoolVal(k.Value) {
+			nTrue++
+			if !trueBlocks[b] || len(b.Preds) != 1 || !inLoop(b.Preds[0]) {
+				return false, "the scan helper " + g.Name() + " returns true outside the true edge of `item.Type == SDESCNAME` in its scan"
+			}
+		} else if reach[b] {
+			return false, "the scan helper " + g.Name() + " can return false after an item compared equal to SDESCNAME"
+		}
+	}
+	if nTrue == 0 {
+		return false, "the scan helper " + g.Name() + " never returns true"
+	}
+	return true, ""
 }
